@@ -227,3 +227,68 @@ func VerifC06Statements() {
 	zzRun(erp, c06Stmts[si], vs)
 	zz.Reach("after-eval")
 }
+
+var c06SinkBodies = []string{
+	"x := \"abc\" like v",
+	"x := v like \"(\"",
+	"a := 1\n a.b := 2",
+	"a := [1]\n a[v] := 2",
+	"v.a := 1",
+	"v[0] := 1",
+	"[a, b] := v",
+	"return v",
+	"raise(v, v, v)",
+	"x := v + 1",
+	"x := 1 / v",
+	"for [a, b] in v {\n}",
+	"x := {v : 1}",
+	"x := v()",
+	"import \"nothing\" as n",
+	"x := v.a.b",
+	"mutex m {\n raise(\"E\", v)\n}",
+	"try {\n x := -v\n} finally {\n y := v[1]\n}",
+	"x := event.state[v]",
+	"addEventAndWait(v, v, v)",
+}
+
+// VerifC06SinkBody: a sink whose body fails (or not) in one of many ways on a value of arbitrary kind taken from the
+// event state - including failures that are plain Go errors rather than ECAL runtime errors - is triggered through the
+// ECAL function addEventAndWait inside try (NESTED=1: from inside another sink, i.e. on a pool worker): no panic on the
+// adding goroutine or a worker, the failure stays confined to that invocation (the program continues, a later event is
+// still processed by a healthy sink) and the collected errors can be read and printed.
+func VerifC06SinkBody() {
+	InbuildFuncMap["mark"] = &c02Mark{}
+	c02Marks = nil
+	erp, _ := zzProvider()
+	erp.Processor = engine.NewProcessor(zz.Param("WORKERS", 1))
+	vs := zzScope()
+	bi := zz.Choice("body", len(c06SinkBodies))
+	k := zz.Choice("kind", zzKinds)
+	vs.SetValue("V", zzValue("v", k))
+	src := "sink s1\n kindmatch [ \"a\" ],\n {\n v := event.state.k\n " + c06SinkBodies[bi] + "\n }\n" +
+		"sink sh\n kindmatch [ \"h\" ],\n {\n mark(\"healthy\")\n }\n"
+	if zz.Param("NESTED", 0) == 1 {
+		src += "sink so\n kindmatch [ \"o\" ],\n {\n r := addEventAndWait(\"e\", \"a\", {\"k\" : event.state.k})\n mark(\"inner:{{len(r)}}\")\n if len(r) > 0 {\n raise(\"Outer\", r[0].errors, r)\n }\n }\n" +
+			"res := null\ntry {\n res := addEventAndWait(\"o\", \"o\", {\"k\" : V})\n} except e {\n res := e\n}\n"
+	} else {
+		src += "res := null\ntry {\n res := addEventAndWait(\"e\", \"a\", {\"k\" : V})\n} except e {\n res := e\n}\n"
+	}
+	src += "txt := \"{{res}}\"\nn := len(res)\nfor r in res {\n for [name, e] in r.errors {\n  t := \"{{e.type}} {{e.error}} {{e.detail}} {{e.data}}\"\n }\n}\naddEventAndWait(\"e2\", \"h\", {})\nmark(\"end\")\n"
+	zz.Reach("before-eval")
+	_, err := zzRun(erp, src, vs)
+	zz.Reach("after-eval")
+	zz.Assert(err == nil, "C06.sink-failure-does-not-fail-the-adding-program")
+	if err != nil {
+		return
+	}
+	h, e := 0, 0
+	for _, m := range c02Marks {
+		if m == "healthy" {
+			h++
+		}
+		if m == "end" {
+			e++
+		}
+	}
+	zz.Assert(h == 1 && e == 1, "C06.later-event-still-processed-after-a-failing-sink")
+}
